@@ -99,6 +99,7 @@ pub struct Announced {
     pub hash: H32,
     pub prev: H32,
     pub height: u32,
+    pub header: bitcoin::block::Header,
 }
 
 /// Resets the thread's canister to a freshly initialised one.
